@@ -23,6 +23,9 @@ CHECKS = {
  "C15": dict(engine="refcodec", cat="exploration", ref="DESIGN.md 5/C15",
    text="Seeded input search: keys with every brace arrangement against the cluster specification implemented bit by bit, all CRC16 copies (unexported ones through scratch-only export shims), and shard slot ranges for the checkpoint key and the key filter. Pure-function property: schedules/faults do not apply to this part.",
    tech="seeded input generation with shrinking on the tape; specification-text reference (no scheduler involvement: pure function)"),
+ "C03": dict(engine="simrt+simnet+modelredis", cat="exploration", ref="DESIGN.md 5/C03",
+   text="Seeded search over source command streams x filters x sender thresholds x release timing around the flush ticker x network profile x schedules, with the real DbSyncer pipeline between a master model and a target model; the target's applied-command log must equal the reference filter of the stream, and every command must arrive within a bounded simulated time.",
+   tech="deterministic simulation: full sync pipeline under a tape-driven scheduler, simulated TCP/clock, master+target reference models, reference filter as oracle"),
  "C18": dict(engine="simrt", cat="exploration", ref="DESIGN.md 5/C18",
    text="Seeded search over writer/reader/closer scripts and lock-granularity interleavings of the real backlog ring against an absolute-offset log model (interval semantics for in-flight writes), with lost-wake-up analysis at quiescence.",
    tech="deterministic simulation: tape-driven baton scheduler over instrumented locks/conds + absolute-offset log model"),
